@@ -1,7 +1,6 @@
 package rules
 
 import (
-	"go/constant"
 	"go/token"
 	"strings"
 
@@ -11,8 +10,6 @@ import (
 )
 
 func init() { km.Register("C13", checkC13) }
-
-const oidcClientT = "(*" + KMD + ".OpenIDConnectClientConfig)."
 
 func isElemOfField(v ssa.Value, field string) bool {
 	u, ok := km.Unwrap(v).(*ssa.UnOp)
@@ -24,61 +21,6 @@ func isElemOfField(v ssa.Value, field string) bool {
 		return false
 	}
 	return mentionsField(ia.X, field)
-}
-
-// flagTrueSources walks a bool phi web and reports, for every edge that can make it true, the controlling
-// facts of the edge (constant true) or the operand value (computed).
-type flagSource struct {
-	pos   string
-	facts []km.Fact
-	val   ssa.Value // nil for a constant true
-	in    ssa.Instruction
-}
-
-func flagTrueSources(c *km.Ctx, root ssa.Value) (srcs []flagSource, ok bool) {
-	seen := map[*ssa.Phi]bool{}
-	ok = true
-	var walk func(v ssa.Value, pred *ssa.BasicBlock, at ssa.Instruction)
-	walk = func(v ssa.Value, pred *ssa.BasicBlock, at ssa.Instruction) {
-		switch x := v.(type) {
-		case *ssa.Phi:
-			if seen[x] {
-				return
-			}
-			seen[x] = true
-			for i, e := range x.Edges {
-				walk(e, x.Block().Preds[i], x)
-			}
-		case *ssa.Const:
-			if x.Value != nil && x.Value.Kind() == constant.Bool && constant.BoolVal(x.Value) {
-				var facts []km.Fact
-				if pred != nil {
-					facts = controllingFactsAll(c, pred)
-					// the edge itself
-					if iff, isIf := pred.Instrs[len(pred.Instrs)-1].(*ssa.If); isIf && at != nil {
-						if pred.Succs[0] == at.Block() {
-							facts = append(facts, c.F.CondFacts(iff.Cond, true)...)
-						} else if pred.Succs[1] == at.Block() {
-							facts = append(facts, c.F.CondFacts(iff.Cond, false)...)
-						}
-					}
-				}
-				p := "-"
-				if pred != nil && len(pred.Instrs) > 0 {
-					p = c.P.InstrPos(pred.Instrs[len(pred.Instrs)-1])
-				}
-				srcs = append(srcs, flagSource{pos: p, facts: facts, in: at})
-			}
-		default:
-			p := "-"
-			if in, isI := v.(ssa.Instruction); isI {
-				p = c.P.InstrPos(in)
-			}
-			srcs = append(srcs, flagSource{pos: p, val: v, in: at})
-		}
-	}
-	walk(root, nil, nil)
-	return srcs, ok
 }
 
 func checkC13(c *km.Ctx) {
@@ -432,70 +374,6 @@ func startsAtDot(suf ssa.Value, dom ssa.Value, k km.Conj, depth int) bool {
 		}
 	}
 	return false
-}
-
-func classifyVerdictSource(c *km.Ctx, vf, hp *ssa.Function, src flagSource) string {
-	if src.val != nil {
-		return "computed:" + clipS(km.ValStr(src.val), 60)
-	}
-	for _, f := range src.facts {
-		if f.Op == token.ILLEGAL && f.Pol {
-			if cl, idx := callRes(f.X); cl != nil && idx == 0 {
-				switch {
-				case km.CalleeFull(cl.Common()) == "regexp.MatchString" && isElemOfField(cl.Common().Args[0], "AllowedRedirectURLRE") && km.Unwrap(cl.Common().Args[1]) == ssa.Value(vf.Params[1]):
-					return "pattern-match"
-				case km.StaticCallee(cl.Common()) == hp && isElemOfField(cl.Common().Args[1], "AllowedRedirectDomains"):
-					return "domain-match"
-				}
-			}
-		}
-		if cl, ok := f.X.(*ssa.Call); ok {
-			if b, ok := cl.Common().Value.(*ssa.Builtin); ok && b.Name() == "len" && mentionsField(cl.Common().Args[0], "AllowedRedirectURLRE") {
-				if i, isC := km.ConstInt(f.Y); isC && ((f.Op == token.LSS && i == 1) || (f.Op == token.LEQ && i == 0) || (f.Op == token.EQL && i == 0)) {
-					return "no-patterns-configured"
-				}
-			}
-		}
-	}
-	return "unrecognised@" + src.pos
-}
-
-// isConjunctionOfFlags: v = matchedDomain && matchedRE, i.e. a phi with a constant-false edge taken when the domain
-// flag is false and the other edge carrying the pattern flag.
-func isConjunctionOfFlags(c *km.Ctx, vf, hp *ssa.Function, v ssa.Value) bool {
-	phi, ok := v.(*ssa.Phi)
-	if !ok || len(phi.Edges) != 2 {
-		return false
-	}
-	var flagEdge ssa.Value
-	var falsePred *ssa.BasicBlock
-	for i, e := range phi.Edges {
-		if cst, ok := e.(*ssa.Const); ok && km.ValStr(cst) == "false" {
-			falsePred = phi.Block().Preds[i]
-		} else {
-			flagEdge = e
-		}
-	}
-	if flagEdge == nil || falsePred == nil {
-		return false
-	}
-	// the branch in falsePred tests the other flag
-	iff, ok := falsePred.Instrs[len(falsePred.Instrs)-1].(*ssa.If)
-	if !ok {
-		return false
-	}
-	a, _ := flagTrueSources(c, iff.Cond)
-	b, _ := flagTrueSources(c, flagEdge)
-	kinds := map[string]bool{}
-	for _, s1 := range append(a, b...) {
-		kinds[classifyVerdictSource(c, vf, hp, s1)] = true
-	}
-	for k := range kinds {
-		if k != "domain-match" && k != "pattern-match" && k != "no-patterns-configured" {
-			return false
-		}
-	}
-	return kinds["domain-match"] && (kinds["pattern-match"] || kinds["no-patterns-configured"])
 }
 
 // hostOfParsedParam: v is parse(<param>).Hostname(), directly or through a local / captured variable
